@@ -78,11 +78,11 @@ func (c *Ctx) Unk(rule, construct string, pos token.Pos, detail string) {
 }
 
 // Check records ok when cond holds and a violation otherwise.
-func (c *Ctx) Check(cond bool, rule, construct string, pos token.Pos, okDetail, badDetail string) bool {
+func (c *Ctx) Check(cond bool, rule, construct string, pos token.Pos, okDetail, badDetail string, path ...string) bool {
 	if cond {
 		c.Ok(rule, construct, pos, okDetail)
 	} else {
-		c.Bad(rule, construct, pos, badDetail)
+		c.Bad(rule, construct, pos, badDetail, path...)
 	}
 	return cond
 }
